@@ -443,6 +443,26 @@ func (d *protoDom) storeStruct(st *sState, dst string, v gStructVal) {
 func (d *protoDom) streamStep(st *sState, in ssa.Instruction) bool {
 	e := d.e
 	pos := e.p.InstrPos(in)
+	if !d.stream {
+		// the glue domain proper only needs array values (arrays returned from helpers and assigned to locals)
+		switch x := in.(type) {
+		case *ssa.UnOp:
+			if v, ok := e.get(st, x.X).(gArr); ok && x.Op == token.MUL {
+				if _, ok := x.Type().Underlying().(*types.Array); ok {
+					st.vals[x] = gArrVal{v.obj, len(st.geff), v.n, v.esz}
+					return true
+				}
+			}
+		case *ssa.Store:
+			if a, ok := e.get(st, x.Addr).(gArr); ok {
+				if av, ok := e.get(st, x.Val).(gArrVal); ok {
+					st.geff = append(st.geff, gEffect{kind: "copy", obj: a.obj, off: pC(0), n: pC(int64(av.n * av.esz)), srcObj: av.obj, srcOff: pC(0), srcIdx: av.at, hasSrcIdx: true, pos: pos})
+					return true
+				}
+			}
+		}
+		return false
+	}
 	switch x := in.(type) {
 	case *ssa.UnOp:
 		if x.Op != token.MUL {
